@@ -212,3 +212,31 @@ MANIFEST = {
     "text": "TLC proves on the bounded model that with bounded faults and one spare carrier every segment is delivered and that the redial layer never closes while peers exist (it finds D15 by itself when the model follows the pinned code). Seeded TLC behaviours and all maximal paths of the smallest configuration are mapped to byte-position cuts (before the token, inside the ClientID, frame boundary, inside prefix, inside body), stalls, half-open carriers, refused dials and empty-pool delays on real WebSocket carriers between the real redial/KCP/smux stack and the real server; every read at both ends must extend a prefix of that session's keyed stream (TLC judges the trace), nothing may follow the last byte, and both streams must complete within 60 s of the last fault (stalls re-run alone with doubled limits).",
     "note": "Schedules are sampled, not exhaustive; KCP/smux trusted. Quick tier = core rig only (model clients with the real packet stack); real Peers/WebRTCPeer/newSession and broker answer loss only in the thorough system rig. SIGKILL/SIGSTOP of real proxy processes (binaries variant) not built.",
 }
+
+
+# --- extension part built separately: common/websocketconn (spec/WsConn), see notes/WsConn.md -------------------
+_run_core = run
+
+
+def run(chk, args):
+    import json as _json
+    only = set(args.only.split(",")) if args.only else None
+    if args.replay:
+        with open(args.replay) as fh:
+            rp = _json.load(fh)["replay"]
+        if isinstance(rp, dict) and rp.get("mode") == "wsconn":
+            from checks import c01_wsconn
+            return c01_wsconn.replay(chk, rp)
+        return _run_core(chk, args)
+    if only is None or only - {"wsconn"}:
+        _run_core(chk, args)
+    if only is None or "wsconn" in only:
+        from checks import c01_wsconn
+        a2 = args
+        if only is not None:   # the part's own --only vocabulary is mc,gen,herd
+            import argparse
+            a2 = argparse.Namespace(**dict(vars(args), only=None))
+        try:
+            c01_wsconn.run_wsconn_part(chk, a2)
+        except vlib.Inconclusive as e:
+            chk.fail("wsconn part: %s" % e)
